@@ -514,7 +514,7 @@ class Engine:
     # ---------------------------------------------------------------- statements
     def assign(self, x, st):
         """effects of an assignment / inc / dec expression node on the state"""
-        ap = assign_parts(x)
+        ap = assign_parts_raw(x)
         if ap:
             tgt, rhs, op = ap
             t = strip(tgt)
@@ -648,7 +648,7 @@ class Engine:
                     if k in ('t', 'ot', 'ct', 'pt'):
                         continue
                     rec(v)
-                if assign_parts(x) or is_incdec(x):
+                if assign_parts_raw(x) or is_incdec(x):
                     out.append(x)
             elif isinstance(x, list):
                 for v in x:
@@ -898,7 +898,7 @@ class Engine:
         ids = set()
         arrays = set()
         for x in walk(node):
-            ap = assign_parts(x)
+            ap = assign_parts_raw(x)
             t = None
             if ap:
                 t = strip(ap[0])
@@ -1065,7 +1065,7 @@ class Engine:
         if node is None:
             return False
         for x in walk(node):
-            ap = assign_parts(x)
+            ap = assign_parts_raw(x)
             t = strip(ap[0]) if ap else (strip(x['e']) if is_incdec(x) else None)
             if t is not None and t.get('k') == 'DeclRefExpr' and t.get('id') in (self.cursor_id, self.count_id):
                 return True
